@@ -53,18 +53,21 @@ CLAIMED = {
          "ReplaceTypedDictsWithStubs clauses are observed on the implementation (direct oracle), not yet modelled (partial)"),
    technique="Lean 4 proof (invariant by well-founded induction) over a hand-written model + differential correspondence check"),
  "C05": dict(
-   text=("Lean 4 theorems: under the tight reading of Any (Any admits nothing) every observed value is still a member of the inferred "
-         "type, so Any only ever stands for empty containers (MT.C05.any_only_for_empty_containers); a key of a merged TypedDict is "
-         "required iff every observed dict has it and optional iff some has it and some lacks it (merged_keys, merged_shape); and at the "
-         "default max_typed_dict_size 0 the lock-step witness statement holds for every non-empty collection of values of any shape: "
-         "every class named is the exact class of an observed value, every union alternative is inhabited, tuple types have observed "
-         "tuples of that length, Any only below an observed empty container (infer_witnessed_partial, from Lemmas/Witness: monotonicity "
-         "of `witnessed` on TypedDict-free types, shrink_witnessed by functional induction over shrink, a value witnesses its own type). "
-         "For k > 0 (TypedDict merges) the full statement InferWitnessed is a Lean definition evaluated on the model and, through an "
-         "independent Python twin, on the implementation for every generated multiset."),
+   text=("Lean 4 theorems: the full lock-step witness statement (MT.C05.inferWitnessed_holds) - for every TypedDict size limit and every "
+         "non-empty collection of well-formed values of any shape, the inferred type is witnessed by those values at every nesting "
+         "position: every class named is the exact class of an observed value, every union alternative is inhabited, tuple types have "
+         "observed tuples of that length, Any only below an observed empty container, a required TypedDict key is in every observed dict "
+         "and an optional one in some but not all, every field type is witnessed by the values under its key. Proof: `witnessed` sees the "
+         "observations as a set, pools observations of one type and respects == (Lemmas/WitnessTD); the TypedDict -> Dict rewrite keeps a "
+         "type witnessed and shrink_types of types that each carry their own observations is witnessed by all of them "
+         "(Lemmas/WitnessMerge.shrink_witnessed_groups, functional induction over shrink with the invariants of inferred types: normal "
+         "form, TypedDict-free union members, 1..k keys, disjoint required/optional keys); a value witnesses its own type "
+         "(Lemmas/WitnessFull). Also: under the tight reading of Any every observed value is a member (any_only_for_empty_containers); "
+         "merged_keys / merged_shape. Tied to /repo by comparing inference results and the Lean `witnessed` with an independent Python "
+         "twin on the implementation for every generated multiset."),
    ref="DESIGN.md section 4 C05",
-   note=("partial: the witness statement is proved for k = 0 and evaluated for k > 0; trusted: Lean kernel + standard axioms, hand-written model "
-         "tied by correspondence (infer + witness oracle pair incl. widened negative controls)"),
+   note=("trusted: Lean kernel + standard axioms, hand-written model tied by correspondence (infer + witness oracle pair incl. widened negative "
+         "controls); hypothesis: values well-formed (string keys of a dict distinct, true of every Python dict)"),
    technique="Lean 4 proof over a hand-written model (structural, mutual and functional induction) + executable formal witness oracle + differential correspondence check"),
  "C07": dict(
    text=("Lean 4 theorems over a model of the GenericTypeRewriter traversal and the five shipped overrides: every rewriter alone, the "
